@@ -398,7 +398,28 @@ func tableEvents(full bool) []event {
 	return evs
 }
 
+// nestedEvents: filters that are prefixes of one another (a value-bearing node of the subscription tree with a
+// single branch below it), subscribed and unsubscribed in every order.
+func nestedEvents() []event {
+	var evs []event
+	for _, f := range []string{"a", "a/b", "a/b/c", "a/#", "+/b"} {
+		f := f
+		evs = append(evs, event{fmt.Sprintf("s:SUBSCRIBE(%s:1)", f), func(h *hist) { h.subscribe("s", sub(f, 1)) }})
+		evs = append(evs, event{fmt.Sprintf("s:UNSUBSCRIBE(%s)", f), func(h *hist) { h.unsubscribe("s", f) }})
+	}
+	return evs
+}
+
 func (h *hist) probe() {
+	if h.pr.Mode == "nested" {
+		for _, t := range []string{"a", "a/b", "a/b/c", "x/b"} {
+			h.publish("p", t, h.fresh(), 1, false)
+			if h.x.Failed() {
+				return
+			}
+		}
+		return
+	}
 	for _, t := range []string{"a/b", "a", "a/b/c", "b"} {
 		for _, q := range qosAll {
 			h.publish("p", t, h.fresh(), q, false)
@@ -555,6 +576,10 @@ func history(x *explore.X, pr params) {
 		h.connect("s", false, nil)
 		h.connect("p", true, nil)
 		evs = tableEvents(pr.Full)
+	case "nested":
+		h.connect("s", false, nil)
+		h.connect("p", true, nil)
+		evs = nestedEvents()
 	case "multi":
 		for _, id := range []string{"A", "B", "C"}[:pr.Clients] {
 			h.connect(id, false, nil)
@@ -581,7 +606,7 @@ func history(x *explore.X, pr params) {
 			return
 		}
 		switch pr.Mode {
-		case "table":
+		case "table", "nested":
 			h.probe()
 		case "retained":
 			h.probeRetained()
@@ -637,10 +662,12 @@ func runC06(r *report.Report) {
 	th := r.Tier == "thorough"
 	if !th {
 		explorePart(r, "table-depth2", params{Mode: "table", Depth: 2}, 0, "delivery")
+		explorePart(r, "nested-filters-depth4", params{Mode: "nested", Depth: 4}, 0, "delivery")
 		explorePart(r, "multi-2clients", params{Mode: "multi", Depth: 4, Clients: 2}, 0, "delivery")
 		explorePart(r, "multi-2clients-reordered", params{Mode: "multi", Depth: 2, Clients: 2}, 1, "delivery")
 	} else {
 		explorePart(r, "table-depth3", params{Mode: "table", Depth: 3, Full: true}, 0, "delivery")
+		explorePart(r, "nested-filters-depth5", params{Mode: "nested", Depth: 5}, 0, "delivery")
 		explorePart(r, "multi-2clients", params{Mode: "multi", Depth: 5, Clients: 2, Full: true}, 0, "delivery")
 		explorePart(r, "multi-3clients", params{Mode: "multi", Depth: 4, Clients: 3, Full: true}, 0, "delivery")
 		explorePart(r, "multi-2clients-reordered", params{Mode: "multi", Depth: 3, Clients: 2}, 1, "delivery")
